@@ -12,6 +12,7 @@ import TerwayModel.Driver.Daemon
 import TerwayModel.Driver.Pool
 import TerwayModel.Driver.Ipam
 import TerwayModel.Driver.PodEni
+import TerwayModel.Driver.StoredRec
 /-
 `drv`: reads one operation per line (`<model>.<op> arg…`), prints one canonical line per input.
 Malformed or unknown lines print `bad-op` — never a default value.
@@ -34,6 +35,7 @@ def dispatch (st : St) (line : String) : St × String :=
     match head.splitOn "." with
     | ["net", op] => (st, (Net.step op args).getD "bad-op")
     | ["bw", op] => (st, (Bandwidth.step op args).getD "bad-op")
+    | ["sr", op] => (st, (StoredRecD.step op args).getD "bad-op")
     | ["cap", op] => (st, (Capacity.step op args).getD "bad-op")
     | ["fib", op] =>
       match DatapathD.fibStep st.fib op args with
